@@ -90,3 +90,53 @@ func VerifC08_TwoWriters_E() {
 	b, err := os.ReadFile(p)
 	vAssert(err == nil && string(b) == string(data), "chunk incomplete after two concurrent writers finished")
 }
+
+// VerifC08_WriteFault_E: no process death, but one file-system call of StoreChunk fails - a write
+// cut short at any byte count (ENOSPC/EIO), or a failing create, close-time rename or mkdir.
+// Whatever StoreChunk reports, the chunk's name holds nothing or the complete storage bytes,
+// and a nil return means the complete chunk is there.
+func VerifC08_WriteFault_E() {
+	unc := vChoose("uncompressed", 2) == 1
+	base := vTempDir()
+	s, _ := NewLocalStore(base, StoreOptions{Uncompressed: unc})
+	data := vBytes("data", 3)
+	c := NewChunk(data)
+	id := c.ID()
+	want := data
+	if !unc {
+		want, _ = Compress(data)
+	}
+	dir, p := s.nameFromID(id)
+	switch vChoose("fault", 5) {
+	case 0: // the write accepts a prefix of every possible length, then fails
+		vFSShortWrite(0, vChoose("bytes-accepted", len(want)))
+	case 1:
+		vFSFault("write", 0)
+	case 2:
+		vFSFault("rename", 0)
+	case 3:
+		vFSFault("open", 0) // the only open of StoreChunk is the temp file
+	case 4:
+		vFSFault("mkdir", 0)
+	}
+	err := s.StoreChunk(c)
+	vCover("returned")
+	b, rerr := os.ReadFile(p)
+	if rerr == nil {
+		vAssert(vEqBytes(b, want), "a partially written chunk is visible under the chunk's name after a failed write")
+	} else {
+		vAssert(os.IsNotExist(rerr), "chunk path unreadable")
+	}
+	if err == nil {
+		vAssert(rerr == nil, "StoreChunk returned nil but the chunk file is not there")
+	} else {
+		vCover("fault-reported")
+		// whatever a failed StoreChunk leaves behind is a prunable temp file
+		for _, f := range vFSList(base) {
+			if f == dir || f == p {
+				continue
+			}
+			vAssert(strings.HasPrefix(f, dir+"/"+tmpChunkPrefix), "a failed StoreChunk left a file that is neither the chunk nor a prunable temp file")
+		}
+	}
+}
